@@ -128,10 +128,12 @@ def run(ctx):
     order = list(cases)
     random.Random(20261002).shuffle(order)
     traces = sorted(vlib.run_harness(ctx, binp, order, timeout=2400), key=lambda t: t["id"])
-    pick = [t for t in traces if t["kind"] == "enet" and t["inp"]["icpt"] and t["inp"]["p"] == 1
+    def nz(t):
+        return t["ev"] and t["ev"][0].get("res") == "ok" and any(v != 0 for row in t["ev"][0]["w"] for v in row)
+    pick = [t for t in traces if t["kind"] == "enet" and t["inp"]["icpt"] and t["inp"]["p"] == 1 and nz(t)
             and t["inp"]["ln"] > 0 and t["inp"]["lte"] > 0 and t["inp"]["x"][0][0] >= 9][:1]
-    pick += [t for t in traces if t["kind"] == "ols" and t["inp"]["p"] == 2][:1]
-    pick += [t for t in traces if t["kind"] == "mtl" and t["inp"]["rn"] > 0 and t["inp"]["ln"] > 0][:1]
+    pick += [t for t in traces if t["kind"] == "ols" and t["inp"]["p"] == 2 and nz(t)][:1]
+    pick += [t for t in traces if t["kind"] == "mtl" and t["inp"]["rn"] > 0 and t["inp"]["ln"] > 0 and nz(t)][:1]
     vlib.sample(ctx, pick)
     vlib.validate_with_findings(ctx, "Trace_LinReg", traces, constants=TRACE_CONST, chunk=4000)
     ctx.rule = ("cases = lattice regression problems (sorted first column over {-1..2} x (scale,offset) in {1,10}x{0,10}; "
